@@ -178,11 +178,7 @@ theorem respond_containsPart (st : State) (si : Nat) (hinv : Inv st) (hsi : si <
   rcases hp with ⟨P', hP', hhp⟩ | ⟨hn, _⟩
   · cases hP'
     rw [lowerBound_eq _ si st.paths hvi hne h64] at hlow
-    have hng : ∀ g0, (st.stream si).entryAt M ≠ some (.gap g0) := by
-      intro g0 hg0
-      rw [hasPart_gap _ si st.paths hvi M P g0 hg0] at hhp
-      cases hhp
-    have hpub := (hasPart_iff _ si st.paths hvi hne M P (by omega) hng).mp hhp
+    have hpub := (hasPart_iff _ si st.paths hvi hne M P (by omega)).mp hhp
     exact ⟨hd, hpub, published_containsPart st si hinv hsi d _ _ hpub⟩
   · cases hn
 
@@ -258,7 +254,6 @@ theorem wait_inv (st : State) (si : Nat) (hv : st.cfg.variant = .ll) (m : Nat) (
 theorem wait_unpublished (st : State) (si : Nat) (hinv : Inv st) (hsi : si < st.streams.length)
     (h64 : (st.stream si).nextSegmentID < two64) (hc : (st.stream si).segments ≠ [])
     (M : Nat) (part : Option Nat) (skip : Bool)
-    (hng : ∀ g0, (st.stream si).entryAt M ≠ some (.gap g0))
     (h : reqDecision st si (some M) part skip = .wait) :
     match part with
     | none => ¬ (st.stream si).listed M
@@ -276,7 +271,7 @@ theorem wait_unpublished (st : State) (si : Nat) (hinv : Inv st) (hsi : si < st.
   | some P =>
     simp only
     intro hpub
-    have := (hasPart_iff _ si st.paths hvi hc M P (by omega) hng).mpr hpub
+    have := (hasPart_iff _ si st.paths hvi hc M P (by omega)).mpr hpub
     rw [hP P rfl] at this
     cases this
 
